@@ -29,6 +29,7 @@ from common import *
 import c10_lib as L
 import c10_gen as G
 import content as CT
+import c10_legacy as LG
 
 CONSTS = {  # name -> (file, regex, value the model assumes)
     'UUID_MAX': ('cmdline/elem.h', r'#define\s+UUID_MAX\s+(\d+)', 128),
@@ -399,6 +400,81 @@ def hole_scenario(ctx, idx, seed, root):
     shutil.rmtree(root, ignore_errors=True)
 
 
+def uuid_scenario(ctx, idx, seed, root):
+    """disk UUIDs (--test-fake-uuid gives the first two data lines the ids fake-uuid-2 / fake-uuid-1): a map without UUID gets the one
+    of its disk at the next save; a disk renamed in the configuration is found again through its UUID and its map is renamed;
+    swapping two data lines changes two UUIDs at once (allowed with two parity levels).  state_map is outside the Coq model: the
+    expected file is the model's encoding of the model-decoded old file with the UUIDs of the maps replaced in Python."""
+    import random
+    rng = random.Random(seed)
+    nd = rng.choice([2, 3])
+    A = L.Array(root, ctx.tool, ctx.shim, ndisk=nd, npar=2, hashsize=rng.choice([16, 8]), splits=rng.choice([[1, 1], [2, 1]]), ncontent=2)
+    T = 1500000000 + rng.randrange(0, 2 ** 28)
+    replay = {'kind': 'uuid', 'seed': seed}
+    for d in range(nd):
+        for j in range(rng.randrange(1, 4)):
+            L.write_file(A.dpath(d, rng.choice(L.ODD_NAMES[:14]) + b'%d' % j), rng.choice([0, 1, 1024, 2500]), rng)
+    os.makedirs(A.dpath(nd - 1, b'edir'), exist_ok=True)
+    A.run(['sync'], now=T)
+    check_saved(ctx, A, T, 'U%d_0_sync' % idx, replay)
+
+    def predicted(before, now):
+        dec = ctx.model.ask('decode %s %s' % (A.model_conf(), L.hx(before)))
+        if not dec.startswith('ok '):
+            return None
+        st = L.parse_state(dec[3:])
+        ids = dict(A.conf_disks())
+        for m in st['maps']:
+            if ids.get(m['name']):
+                m['uuid'] = ids[m['name']]
+        e = ctx.model.ask('encode %x %s' % (now, L.state_line(st)))
+        try:
+            return bytes.fromhex(e)
+        except ValueError:
+            return None
+
+    def step(tag, what):
+        nonlocal T
+        T += rng.randrange(8, 2000)
+        before = A.content(0)
+        rc, out = A.run(['touch'], now=T)           # loads with disk access (test-rewrite does not read the UUIDs) and always saves
+        after = A.content(0)
+        with ctx.lock:
+            ctx.stats['commands'] += 1
+            ctx.stats['uuid_steps'] = ctx.stats.get('uuid_steps', 0) + 1
+        exp = predicted(before, T)
+        rep = dict(replay, step=what, before_hex=before.hex(), after_hex=(after or b'').hex(), conf_disks=[(a.decode(), b.decode()) for a, b in A.conf_disks()])
+        if rc != 0 or exp is None or after != exp:
+            ctx.viol(tag, '%s (%s): touch rc %d; the saved file differs from the old state with the UUIDs of the configured disks in its maps at byte %d: %s'
+                     % (tag, what, rc, first_diff(after or b'', exp or b''), out[-200:].decode('latin1')), rep)
+            return False
+        try:
+            pm = {m['name'].encode('latin1') if isinstance(m['name'], str) else m['name']: m['uuid'] for m in CT.parse(after, 16)['maps']}
+            want = {n: u for n, u in A.conf_disks() if n in pm}
+            if any(pm[n] != u for n, u in want.items() if u):
+                ctx.viol(tag, '%s (%s): maps of the saved file %s, configured disks %s' % (tag, what, pm, want), rep)
+                return False
+        except Exception as e:
+            ctx.viol(tag, '%s: independent decoder fails: %r' % (tag, e), rep)
+            return False
+        check_saved(ctx, A, T, tag, replay)
+        return True
+
+    A.fake_uuid = True
+    if not step('U%d_1_first_uuid' % idx, 'maps without UUID, disks now report one'):
+        return
+    # rename the first disk of the configuration: found again by its UUID
+    A.labels[A.order[0]] = 'renamed_%d' % rng.randrange(100)
+    A.write_conf()
+    if not step('U%d_2_rename' % idx, 'first data disk renamed in the configuration'):
+        return
+    # swap the first two data lines: both UUIDs change
+    A.order[0], A.order[1] = A.order[1], A.order[0]
+    A.write_conf()
+    step('U%d_3_swap' % idx, 'first two data lines swapped: two UUID changes')
+    shutil.rmtree(root, ignore_errors=True)
+
+
 # ---------------------------------------------------------------------------------------
 # route A: real arrays
 
@@ -490,7 +566,7 @@ def scenario(ctx, idx, seed, steps, root):
                             present[(d2, k[1])] = present.pop(k)
                         except OSError:
                             pass
-            op = rng.choice(['sync', 'sync', 'partial', 'partial', 'scrub', 'scrub_bad', 'rehash', 'rewrite_past', 'sync_nocopy', 'noop_flags'])
+            op = rng.choice(['sync', 'sync', 'partial', 'partial', 'scrub', 'scrub_bad', 'rehash', 'rewrite_past', 'sync_nocopy', 'noop_flags', 'lose_copy'])
         log.append(op)
         tag = 'A%d_%d_%s' % (idx, step, op)
         now = T
@@ -511,6 +587,8 @@ def scenario(ctx, idx, seed, steps, root):
             rc, out = A.run(hash_opt + ['scrub', '-p', rng.choice(['full', '50', 'new', '100']), '-o', '0'], now=T)
         elif op == 'scrub_bad':
             A.run(hash_opt + ['sync'], now=T - 4)      # everything synced, then one byte rots silently
+            history_check(ctx, loaded, A.content(0), 'sync', tag + '_presync', replay, hs)
+            loaded = A.content(0)
             keys = [k for k in sorted(present) if present[k] > 0]
             if keys:
                 k = rng.choice(keys)
@@ -531,6 +609,27 @@ def scenario(ctx, idx, seed, steps, root):
             rc, out = A.run(hash_opt + ['test-rewrite'], now=now)
             with ctx.lock:
                 ctx.stats['clamped_rewrites'] += 1
+        elif op == 'lose_copy':
+            # a content copy is missing (the first one: the next is loaded) or has another size: the command loads a good one and
+            # every copy is written again
+            good = A.content(0)
+            cps = A.content_paths()
+            k = rng.randrange(len(cps))
+            how = 'remove' if k == 0 else rng.choice(['remove', 'truncate', 'grow'])
+            if how == 'remove':
+                os.remove(cps[k])
+            elif how == 'truncate':
+                open(cps[k], 'wb').write(good[:rng.randrange(0, len(good))])
+            else:
+                open(cps[k], 'ab').write(b'\0' * rng.randrange(1, 9))
+            rc, out = A.run(hash_opt + ['test-rewrite'], now=T)
+            with ctx.lock:
+                ctx.stats['lost_copies'] = ctx.stats.get('lost_copies', 0) + 1
+            for i in range(A.ncontent):
+                if rc != 0 or A.content(i) != good:
+                    ctx.viol(tag + '_lose_copy', '%s: content copy %d was %sd; after test-rewrite (rc %d) copy %d is not the good copy (first difference at byte %d)'
+                             % (tag, k, how, rc, i, first_diff(A.content(i) or b'', good)), dict(replay, copy=k, how=how))
+                    break
         elif op == 'noop_flags':
             # a sync that has nothing to process still loads with clear_past_hash and saves
             rc, out = A.run(hash_opt + ['sync', '-S', '100000', '--test-force-content-write'], now=T)
@@ -671,6 +770,77 @@ def gen_case(ctx, idx, seed, root, big, state_override=None, now_override=None):
         elif not pred.startswith('ok ') or bytes.fromhex(pred[3:]) != d3:
             ctx.viol(tag + '_uncleaned', 'MODEL-DRIFT %s: rewrite of a file with DELETED blocks at unused positions differs from the model\'s (first difference at byte %d)'
                      % (tag, first_diff(bytes.fromhex(pred[3:]) if pred.startswith('ok ') else b'', d3 or b'')), rrep, no_input=True)
+    # ---- legacy records: an independent Python writer emits the same state as a SNAPCNT1/2 file with 'm' maps, 'n' blocks, 'P' ----
+    if LG.eligible(want) and len(data) < 60000:
+        ver, oldm, newb = rng.choice([1, 2]), rng.random() < 0.7, rng.random() < 0.7
+        lraw, lexp = LG.encode(want, ver, oldm, newb)
+        lrep = dict(replay, content_hex=lraw.hex(), note='legacy file SNAPCNT%d, m=%s n=%s' % (ver, oldm, newb))
+        dec = ctx.model.ask('decode %s %s' % (A.model_conf(), L.hx(lraw)))
+        with ctx.lock:
+            ctx.stats['legacy_files'] = ctx.stats.get('legacy_files', 0) + 1
+        if dec != 'ok ' + L.state_line(lexp):
+            k = first_diff(dec, 'ok ' + L.state_line(lexp))
+            ctx.viol(tag + '_legacy_model', 'MODEL-DRIFT %s: the model loads a legacy file (SNAPCNT%d, m=%s, n=%s) into a state different from the one its independent '
+                     'writer encoded: column %d "%s"' % (tag, ver, oldm, newb, k, dec[max(0, k - 20):k + 40]), lrep, no_input=True)
+        A.install(lraw)
+        if compare_dumps(ctx, A, lexp, now, tag + '_legacy', lrep):
+            pred = ctx.model.ask('reencode %x %s %s' % (now, A.model_conf(), L.hx(lraw)))
+            rc, out = A.run(['test-rewrite'], now=now)
+            d4 = A.content(0)
+            with ctx.lock:
+                ctx.stats['commands'] += 1
+            if rc != 0 or not pred.startswith('ok ') or bytes.fromhex(pred[3:]) != d4:
+                ctx.viol(tag + '_legacy_rewrite', 'MODEL-DRIFT %s: rewrite (rc %d) of a legacy file differs from the model\'s at byte %d' %
+                         (tag, rc, first_diff(bytes.fromhex(pred[3:]) if pred.startswith('ok ') else b'', d4 or b'')), lrep, no_input=True)
+            elif d4[:8] != b'SNAPCNT2':
+                ctx.viol(tag + '_legacy_rewrite', '%s: a legacy file is not rewritten in the current format' % tag, lrep)
+            else:
+                compare_dumps(ctx, A, lexp, now, tag + '_legacy_after_rewrite', lrep)
+    # ---- a split removed from the configuration: dropped when its size is 0, refused otherwise ('Q' record) ----
+    lv = [l for l, p in enumerate(want['parity']) if len(p['splits']) >= 2]
+    if lv and len(data) < 60000:
+        import copy
+        l = rng.choice(lv)
+        for used in (False, True):
+            s2 = copy.deepcopy(want)
+            s2['parity'][l]['splits'][-1]['size'] = rng.choice([1, 4096, 2 ** 40]) if used else 0
+            enc2 = ctx.model.ask('encode %x %s' % (now, L.state_line(s2)))
+            geom2 = dict(geom, split=[k - (1 if i == l else 0) for i, k in enumerate(geom['split'])])
+            root2 = root + ('_q%d' % used)
+            A2 = L.Array(root2, ctx.tool, ctx.shim, ndisk=geom2['nd'], npar=geom2['nl'], hashsize=geom2['hs'], splits=geom2['split'], ncontent=1,
+                         blocksize_k=geom2['bs_k'])
+            try:
+                raw2 = bytes.fromhex(enc2)
+            except ValueError:
+                break
+            qrep = dict(replay, content_hex=raw2.hex(), note='level %d has one split less in the configuration; size of the removed one %s 0' % (l, '!=' if used else '=='))
+            A2.install(raw2)
+            dec2 = ctx.model.ask('decode %s %s' % (A2.model_conf(), L.hx(raw2)))
+            rc, out = A2.run(['test-rewrite'], now=now)
+            with ctx.lock:
+                ctx.stats['commands'] += 1
+                ctx.stats['split_removed'] = ctx.stats.get('split_removed', 0) + 1
+            if used:
+                if rc == 0 or dec2.startswith('ok '):
+                    ctx.viol(tag + '_split_used', '%s: a parity split that still holds data (size != 0) was removed from the configuration: tool rc %d, model %s '
+                             '(both must refuse)' % (tag, rc, dec2[:8]), qrep, no_input=(rc != 0))
+            else:
+                d5 = A2.content(0)
+                pred = ctx.model.ask('reencode %x %s %s' % (now, A2.model_conf(), L.hx(raw2)))
+                okp = pred.startswith('ok ') and rc == 0 and bytes.fromhex(pred[3:]) == d5
+                if not okp:
+                    ctx.viol(tag + '_split_drop', 'MODEL-DRIFT %s: dropping an unused split: tool rc %d, model %s, rewritten files %s' %
+                             (tag, rc, pred[:8], 'differ' if rc == 0 else '-'), qrep, no_input=True)
+                else:
+                    try:
+                        sp = CT.parse(d5, 16)['levels'][l]['splits']
+                        exp = want['parity'][l]['splits'][:-1]
+                        if len(sp) != len(exp) or any(a['uuid'] != b['uuid'] or (len(exp) > 1 and a['size'] != b['size']) for a, b in zip(sp, exp)):
+                            ctx.viol(tag + '_split_drop', '%s: after dropping the unused last split of level %d the saved splits are %s, expected %s'
+                                     % (tag, l, [(a['uuid'], a['size']) for a in sp], [(b['uuid'], b['size']) for b in exp]), qrep)
+                    except Exception as e:
+                        ctx.viol(tag + '_split_drop', '%s: independent decoder fails on the rewritten file: %r' % (tag, e), qrep)
+            shutil.rmtree(root2, ignore_errors=True)
     with ctx.lock:
         if len(data) < 100000:
             ctx.valid_files.append((A.model_conf(), data))
@@ -879,6 +1049,8 @@ def replay_case(path):
     kind = rp.get('kind')
     if kind == 'scenario':
         scenario(ctx, 0, rp['seed'], rp['steps'], os.path.join(root, 'a'))
+    elif kind == 'uuid':
+        uuid_scenario(ctx, 0, rp['seed'], os.path.join(root, 'a'))
     elif kind == 'hole':
         hole_scenario(ctx, 0, rp['seed'], os.path.join(root, 'a'))
     elif kind == 'gen':
@@ -975,6 +1147,8 @@ def main(tier, replay=None):
             jobs.append(ex.submit(scenario, ctx, i, rng.getrandbits(48), steps, os.path.join(base, 'A%d' % i)))
         for i in range(60 if thorough else 16):
             jobs.append(ex.submit(hole_scenario, ctx, i, rng.getrandbits(48), os.path.join(base, 'H%d' % i)))
+        for i in range(24 if thorough else 6):
+            jobs.append(ex.submit(uuid_scenario, ctx, i, rng.getrandbits(48), os.path.join(base, 'U%d' % i)))
         for i in range(ngen):
             jobs.append(ex.submit(gen_case, ctx, i, rng.getrandbits(48), os.path.join(base, 'B%d' % i), False))
         for i in range(nbig):
@@ -1070,7 +1244,16 @@ def main(tier, replay=None):
     chk.cov['corpus_cases'] = ncorpus
     chk.cov['violations_found_before_cap'] = getattr(ctx, 'nviol', 0)
     chk.assumptions = ['time() is the only clock read while saving (LD_PRELOAD shim)', 'tmpfs under /dev/shm accepts arbitrary byte names',
-                       '--test-skip-device: disk and parity UUIDs are empty, so state_map does not rewrite UUIDs between load and save']
+                       'tmpfs has no device UUID: disk UUIDs are empty except in the uuid scenarios (--test-fake-uuid); parity UUID updates of state_map '
+                       '(state.c 1461-1473) are not reachable here',
+                       'exercised by oracle only (outside the Coq model): state_map UUID adoption / UUID change / rename of a disk found by UUID '
+                       '(expected file = model encoding of the model-decoded old file with the map UUIDs replaced in Python; the lookup by UUID itself IS in decode), '
+                       'state_read choosing among content copies (missing first copy, missing / shorter / longer other copy -> every copy rewritten), '
+                       'the DELETED-hash history rule per command (sync: BLK hash or INVALID; sync -R: either; others: unchanged)',
+                       'HAVE_MT_WRITE is not defined in config.h: the single-stream writer (sopen_multi_write) is the compiled one; both variants call the same '
+                       'state_write_thread',
+                       'not reached, by design: fatal / os_abort branches of the loader (counters are lost on abort), opt.match_first_uuid, the removal of maps '
+                       'without disk in state_map (unreachable after the M record check), --test-skip-content-write (nothing is saved)']
     if regen_msgs:
         chk.notes.append('translator: ' + '; '.join(regen_msgs))
     fe = getattr(ctx, 'finding_example', None) or getattr(ctx, 'finding_example_b', None)
